@@ -5,6 +5,7 @@ import (
 	"bytes"
 	"context"
 	"math/big"
+	"time"
 
 	"verifrt"
 
@@ -78,6 +79,24 @@ type zUnordered struct {
 	M zUMap `serix:""`
 }
 
+// time stamp, slice and array of structs
+type zTimed struct {
+	T    time.Time `serix:""`
+	List []zInner  `serix:",lenPrefix=uint16,maxLen=2"`
+	Pair [2]zInner `serix:",lenPrefix=uint8"`
+}
+
+type zPair struct {
+	Pair [2]zSquare `serix:",lenPrefix=uint8"`
+}
+
+// interface objects under must-occur / at-most-one-of-each-type rules
+type zStrict []zShape
+
+type zStrictHolder struct {
+	S zStrict `serix:""`
+}
+
 // uint256
 type zBig struct {
 	V *big.Int `serix:""`
@@ -103,6 +122,10 @@ func zAPI() *API {
 	must(api.RegisterInterfaceObjects((*zShape)(nil), (*zSquare)(nil), (*zTriangle)(nil)))
 	must(api.RegisterTypeSettings(zShapes{}, TypeSettings{}.WithLengthPrefixType(LengthPrefixTypeAsByte).WithArrayRules(&ArrayRules{
 		Min: 0, Max: 2, ValidationMode: serializer.ArrayValidationModeNoDuplicates | serializer.ArrayValidationModeLexicalOrdering,
+	})))
+	must(api.RegisterTypeSettings(zStrict{}, TypeSettings{}.WithLengthPrefixType(LengthPrefixTypeAsByte).WithArrayRules(&ArrayRules{
+		Min: 0, Max: 3, MustOccur: serializer.TypePrefixes{uint32(100): struct{}{}},
+		ValidationMode: serializer.ArrayValidationModeAtMostOneOfEachTypeByte,
 	})))
 	must(api.RegisterTypeSettings(zUMap{}, TypeSettings{}.WithLengthPrefixType(LengthPrefixTypeAsByte).WithLexicalOrdering(false)))
 	must(api.RegisterTypeSettings(zCoded{}, TypeSettings{}.WithObjectType(uint32(7))))
@@ -186,13 +209,13 @@ func zShapeEq(a, b zShape) bool {
 // forward), Decode yields an equal value and consumes exactly the bytes produced (C01), and a second Encode gives
 // identical bytes (also with the map filled in another order).
 //
-//verif:h prop=C01 cover=nums,bytes,opt-nil,opt-set,coll,big,coded,refused,unordered-map steps=3000000 runs=3000000 timeout=600/900 reversemaps=1
+//verif:h prop=C01 cover=nums,bytes,opt-nil,opt-set,coll,big,coded,refused,unordered-map,timed,strict steps=3000000 runs=3000000 timeout=600/900 reversemaps=1
 func H_C01_serix() { zRoundTrip() }
 
 // H_C03_serix_layout: the same exploration registered under C03 (its assertions include the comparison of Encode's
 // output with the reference layout written by hand in this file).
 //
-//verif:h prop=C03 cover=nums,bytes,opt-nil,opt-set,coll,big,coded,refused,unordered-map steps=3000000 runs=3000000 timeout=600/900 reversemaps=1
+//verif:h prop=C03 cover=nums,bytes,opt-nil,opt-set,coll,big,coded,refused,unordered-map,timed,strict steps=3000000 runs=3000000 timeout=600/900 reversemaps=1
 func H_C03_serix_layout() { zRoundTrip() }
 
 func zRoundTrip() {
@@ -200,7 +223,84 @@ func zRoundTrip() {
 	ctx := context.Background()
 	opts := zOpts()
 	validating := len(opts) > 0
-	switch verifrt.Choose("shape", 7) {
+	switch verifrt.Choose("shape", 9) {
+	case 7:
+		ns := verifrt.I64("ns")
+		verifrt.Assume(ns >= 0)
+		v := &zTimed{T: time.Unix(0, ns), Pair: [2]zInner{{X: verifrt.U16("p0"), Y: verifrt.Bool("q0")}, {X: verifrt.U16("p1"), Y: verifrt.Bool("q1")}}}
+		for k, n := 0, verifrt.Choose("list", 4); k < n; k++ {
+			v.List = append(v.List, zInner{X: verifrt.U16("lx"), Y: verifrt.Bool("ly")})
+		}
+		enc, err := api.Encode(ctx, v, opts...)
+		if len(v.List) > 2 {
+			verifrt.Cover("refused")
+			verifrt.Assert(err != nil || !validating, "Encode with validation accepted a slice longer than its maxLen")
+			if err != nil {
+				return
+			}
+		}
+		ref := zCat(zLE(uint64(ns), 8), zLE(uint64(len(v.List)), 2))
+		for _, e := range v.List {
+			ref = zCat(ref, zLE(uint64(e.X), 2), []byte{zBool(e.Y)})
+		}
+		ref = append(ref, 2) // arrays of non-byte elements carry a length prefix like slices
+		for _, e := range v.Pair {
+			ref = zCat(ref, zLE(uint64(e.X), 2), []byte{zBool(e.Y)})
+		}
+		verifrt.Assert(err == nil && bytes.Equal(enc, ref), "Encode of a time stamp / slice of structs / array of structs differs from the documented layout")
+		out := &zTimed{}
+		n, derr := api.Decode(ctx, enc, out, opts...)
+		verifrt.Assert(derr == nil && n == len(enc), "Decode failed or did not consume exactly the bytes produced")
+		same := verifrt.And(out.T.UnixNano() == ns, out.Pair == v.Pair)
+		same = verifrt.And(same, len(out.List) == len(v.List))
+		for k := range v.List {
+			if k < len(out.List) {
+				same = verifrt.And(same, out.List[k] == v.List[k])
+			}
+		}
+		verifrt.Assert(same, "Decode(Encode(v)) differs from v (time stamp / slice of structs / array of structs)")
+		verifrt.Cover("timed")
+	case 8:
+		v := &zStrictHolder{}
+		squares := 0
+		triangles := 0
+		for k, n := 0, verifrt.Choose("n", 4); k < n; k++ {
+			e := zShapeValue("el")
+			if _, ok := e.(*zSquare); ok {
+				squares++
+			} else {
+				triangles++
+			}
+			v.S = append(v.S, e)
+		}
+		enc, err := api.Encode(ctx, v, opts...)
+		legal := squares == 1 && triangles <= 1
+		if validating {
+			verifrt.Assert((err == nil) == legal, "Encode with validation does not enforce must-occur / at-most-one-of-each-type exactly")
+		} else {
+			verifrt.Assert(err == nil, "Encode without validation refused a collection")
+		}
+		if err != nil {
+			verifrt.Cover("refused")
+
+			return
+		}
+		ref := []byte{byte(len(v.S))}
+		for _, e := range v.S {
+			ref = append(ref, zShapeRef(e)...)
+		}
+		verifrt.Assert(bytes.Equal(enc, ref), "Encode of interface objects under strict array rules differs from the documented layout")
+		out := &zStrictHolder{}
+		n, derr := api.Decode(ctx, enc, out, opts...)
+		verifrt.Assert(derr == nil && n == len(enc) && len(out.S) == len(v.S), "Decode failed or did not consume exactly the bytes produced (strict rules)")
+		same := true
+		for k := range v.S {
+			if k < len(out.S) {
+				same = verifrt.And(same, zShapeEq(v.S[k], out.S[k]))
+			}
+		}
+		verifrt.Assert(same, "Decode(Encode(v)) differs from v (strict rules)")
+		verifrt.Cover("strict")
 	case 6:
 		k0, k1, v0, v1 := verifrt.U8("k0"), verifrt.U8("k1"), verifrt.U8("v0"), verifrt.U8("v1")
 		verifrt.Assume(k0 != k1)
@@ -402,7 +502,13 @@ func zDecodeArbitrary(canonical bool) {
 	}
 	validating := len(opts) > 0
 	var target any
-	switch verifrt.Choose("shape", 5) {
+	switch verifrt.Choose("shape", 8) {
+	case 7:
+		target = &zPair{}
+	case 5:
+		target = &zStrictHolder{}
+	case 6:
+		target = &zUnordered{}
 	case 0:
 		target = &zBytes{}
 	case 1:
